@@ -30,9 +30,11 @@ LOCK_YIELD = [None]      # set by the active run: callable() or None
 class SimLock:
     def __init__(self, real):
         self._real = real
+        self._owner = None
 
     def acquire(self, blocking=True, timeout=-1):
         if self._real.acquire(False):
+            self._owner = _threading.get_ident()
             return True
         if not blocking:
             return False
@@ -40,11 +42,15 @@ class SimLock:
         while not self._real.acquire(False):
             y = LOCK_YIELD[0]
             if y is None:
-                return self._real.acquire(True, timeout)
-            y()
+                ok = self._real.acquire(True, timeout)
+                if ok:
+                    self._owner = _threading.get_ident()
+                return ok
+            y(self._owner)     # hand the baton to the owner
             spins += 1
             if spins > 100000:
                 raise RuntimeError('library lock never became free')
+        self._owner = _threading.get_ident()
         return True
 
     def release(self):
